@@ -236,3 +236,15 @@ def build_harness():
         if rc:
             raise BuildError("cargo build (tree under test does not compile with hooks?)", out[-6000:])
         return out[-500:]
+
+
+def coqchk(prop_file):
+    """independent re-check of the property's compiled closure (thorough tier); -> dict(rc, axioms, wall_s)"""
+    mod = "XS." + prop_file[:-2].replace("/", ".")
+    t0 = time.time()
+    rc, out = sh(["timeout", "1500", "coqchk", "-silent", "-o", "-Q", ".", "XS", mod], cwd=COQ, timeout=1600)
+    axioms = []
+    if "* Axioms:" in out:
+        part = out.split("* Axioms:")[1].split("* ")[0]
+        axioms = [l.strip() for l in part.splitlines() if l.strip() and l.strip() != "<none>"]
+    return dict(rc=rc, axioms=axioms, wall_s=round(time.time() - t0, 1), tail=out[-600:])
